@@ -2,7 +2,12 @@
 certificates for their p and n.  Certificates are computed with sympy under `python3-vt` and cached in
 translate/pratt_cache.json keyed by the constant; a constant is recomputed only when it is not in the cache
 (i.e. when the constant in /repo changed).  A constant that is not prime gets the empty certificate, so the
-primality theorem of Props/C02 that mentions it stops checking."""
+primality theorem of Props/C02 that mentions it stops checking.
+
+Also a certificate `noroot_<curve>` that x^3 + a*x + b has no root modulo p (no point with y = 0, i.e. no point of
+order two; Proofs/CurveCard.lean derives #E(F_p) = n from it): the inverse of X^p - X in F_p[X]/(x^3 + a*x + b), computed
+here in plain Python and checked in the Lean kernel (Spec/CubicRoot.lean), so this computation is not trusted.  A cubic
+that has a root gets the zero triple, and the theorems that use the certificate stop checking."""
 import json
 import os
 import subprocess
@@ -48,6 +53,45 @@ def _lean_cert(name, cert):
     return "def %s : List Pycoin.Pratt.Entry := [\n%s]\n" % (name, ",\n".join(rows))
 
 
+def _mulmod(u, v, p, na, nb):
+    """product in F_p[X]/(X^3 - na*X - nb), as Spec/CubicRoot.lean `mulMod`"""
+    d3 = u[1] * v[2] + u[2] * v[1]
+    d4 = u[2] * v[2]
+    return ((u[0] * v[0] + nb * d3) % p, (u[0] * v[1] + u[1] * v[0] + na * d3 + nb * d4) % p,
+            (u[0] * v[2] + u[1] * v[1] + u[2] * v[0] + na * d4) % p)
+
+
+def _xpow(e, p, na, nb):
+    r = (1 % p, 0, 0)
+    for bit in bin(e)[2:]:
+        r = _mulmod(r, r, p, na, nb)
+        if bit == "1":
+            r = _mulmod(r, (0, 1, 0), p, na, nb)
+    return r
+
+
+def _noroot(p, a, b):
+    """v with v * (X^p - X) = 1 in F_p[X]/(X^3 + a*X + b), or None (3x3 linear system over F_p)"""
+    na, nb = (-a) % p, (-b) % p
+    g = _xpow(p, p, na, nb)
+    h = (g[0], (g[1] + p - 1) % p, g[2])
+    cols = [_mulmod(h, e, p, na, nb) for e in [(1, 0, 0), (0, 1, 0), (0, 0, 1)]]
+    m = [[cols[j][i] for j in range(3)] + [1 if i == 0 else 0] for i in range(3)]
+    for i in range(3):
+        piv = next((r for r in range(i, 3) if m[r][i] % p), None)
+        if piv is None:
+            return None
+        m[i], m[piv] = m[piv], m[i]
+        inv = pow(m[i][i], -1, p)
+        m[i] = [x * inv % p for x in m[i]]
+        for r in range(3):
+            if r != i:
+                f = m[r][i]
+                m[r] = [(x - f * y) % p for x, y in zip(m[r], m[i])]
+    v = tuple(m[i][3] for i in range(3))
+    return v if _mulmod(v, h, p, na, nb) == (1, 0, 0) else None
+
+
 def _params(g):
     return dict(p=g._p, a=g._a, b=g._b, gx=g[0], gy=g[1], n=g._order)
 
@@ -58,7 +102,7 @@ def generate():
     from pycoin.ecdsa.bls12_381_g1 import bls12_381_g1
     curves = [("secp256k1", secp256k1_generator), ("secp256r1", secp256r1_generator), ("bls12_381", bls12_381_g1)]
     cache = _load()
-    out = ["import Pycoin.Model.Curve", "import Pycoin.Spec.Pratt", "namespace Pycoin.Gen.Curves", "open Pycoin.Curve", ""]
+    out = ["import Pycoin.Model.Curve", "import Pycoin.Spec.Pratt", "import Pycoin.Spec.CubicRoot", "namespace Pycoin.Gen.Curves", "open Pycoin.Curve", ""]
     for name, g in curves:
         c = _params(g)
         out.append("def %s : CurveParams :=\n  { p := %d,\n    a := %d,\n    b := %d,\n    gx := %d,\n    gy := %d,\n    n := %d }\n"
@@ -68,5 +112,10 @@ def generate():
         c = _params(g)
         out.append(_lean_cert("pratt_%s_p" % name, _cert(c["p"], cache, slow=c["p"].bit_length() > 300)))
         out.append(_lean_cert("pratt_%s_n" % name, _cert(c["n"], cache, slow=c["n"].bit_length() > 300)))
+    for name, g in curves:
+        c = _params(g)
+        v = _noroot(c["p"], c["a"], c["b"]) or (0, 0, 0)
+        out.append("/-- inverse of X^p − X modulo x³ + a·x + b and p (zero triple: the cubic has a root) -/\n"
+                   "def noroot_%s : Pycoin.CubicRoot.Tri := ⟨%d, %d, %d⟩\n" % ((name,) + tuple(v)))
     out.append("end Pycoin.Gen.Curves\n")
     return {"Curves": "\n".join(out)}
